@@ -17,7 +17,8 @@ package main
 // ops
 //	c03rec <rec fields>   : x = the record;          reply  "-" <tail>
 //	c03img <text>         : x = genbank.Parse(text); reply  "x" <x fields> <tail>
-//	tail = Build(x)  identical(true/false: >= 20 builds, maps refilled in varying orders)
+//	tail = Build(x)  identical(true/false: >= 20 builds, maps refilled in varying orders; AND the first
+//	       output, held while a DIFFERENT record is built, still equals the copy taken at once)
 //	       pstatus(ok|panic)  wrstatus(same|diff|panic)  <fields of Parse(Build(x))>
 
 import (
@@ -323,7 +324,16 @@ func c03equalFields(a, b []string) bool {
 // c03tail: Build x >= 20 times (maps refilled in varying orders), Parse(Build(x)), Write/Read.
 func c03tail(r *c03raw) []string {
 	first := genbank.Build(c03make(r, 0))
-	identical := true
+	// the text of record A must stay A's while it is held: copy it at once, build a different record
+	// (other name, other definition, other sequence length), then compare the HELD slice with the copy
+	snapshot := append([]byte(nil), first...)
+	other := c03make(r, 2)
+	other.Meta.Locus.Name = other.Meta.Locus.Name + "_other"
+	other.Meta.Definition = "another record " + other.Meta.Definition
+	other.Sequence = "ttttt" + other.Sequence + "gg"
+	otherOut := genbank.Build(other)
+	identical := bytes.Equal(first, snapshot) && !bytes.Equal(otherOut, snapshot)
+	first = snapshot
 	same := c03make(r, 1)
 	for round := 1; round < c03Repeats; round++ {
 		var out []byte
